@@ -161,6 +161,82 @@ Proof.
   - (* Unmasked *)
     inversion HV; subst. rewrite to_list_Unmasked in Hl.
     exists (iota (clen c)), xs. split; [reflexivity|]. repeat split; try assumption.
-    rewrite <- (to_list_len _ _ Hl). rewrite <- (gather_all xs) at 2. apply mapM_ext_in. intros i Hin. apply iota_In' in Hin.
+    rewrite <- (to_list_len _ _ Hl). transitivity (mapM (get xs) (iota (zlen xs))); [|apply gather_all]. apply mapM_ext_in. intros i Hin. apply iota_In' in Hin.
     unfold pickv, pick_opt. destruct (0 <=? i) eqn:E2; [reflexivity|lia].
+Qed.
+
+(* ---------------------------------------------------------------- one step of [sg] through the present lists *)
+Lemma unopt_somes (pk : list (list value)) : map unopt (map Some pk) = pk.
+Proof. rewrite map_map. cbn [unopt]. apply map_id. Qed.
+Lemma counts_somes (pk : list (list value)) : map (fun o => zlen (unopt o)) (map Some pk) = map zlen pk.
+Proof. rewrite map_map. reflexivity. Qed.
+
+Lemma sg_present_IAt f str sz t ls i tail :
+  sg (S f) str sz t ls (IAt i :: tail) None =
+  do r <- sg (S f) str sz t (map Some (present ls)) (IAt i :: tail) None; Ok (fst r, reinsert ls (snd r)).
+Proof.
+  rewrite !sg_IAt, present_somes. destruct (szchk sz i) as [[]|e]; cbn [bind]; [|reflexivity].
+  destruct (mapM _ (present ls)) as [xs|e]; cbn [bind present_adv]; [|reflexivity].
+  destruct (se_ f t xs tail None) as [[t' ws]|e]; cbn [bind fst snd]; [|reflexivity].
+  rewrite reinsert_present. reflexivity.
+Qed.
+
+Definition pick_l (a b : option Z) (step : Z) (l : list value) : res (list value) :=
+  mapM (get l) (py_indices (zlen l) a b step).
+
+Lemma pick_range_somes a b step pl :
+  mapM (pick_range a b step) (map Some pl) = rmap (map Some) (mapM (pick_l a b step) pl).
+Proof. rewrite mapM_map. cbn [pick_range]. apply mapM_rmap. Qed.
+
+Lemma pick_range_present a b step ls :
+  mapM (pick_range a b step) ls =
+  rmap (fun pk => bmerge None (keys_ls ls) (map Some pk)) (mapM (pick_l a b step) (present ls)).
+Proof.
+  unfold present. induction ls as [|[l|] ls IH]; cbn [mapM flat_map app keys_ls map]; [reflexivity| |]; rewrite IH.
+  - change (pick_range a b step (Some l)) with (rmap Some (pick_l a b step l)).
+    destruct (pick_l a b step l); cbn [rmap bind]; [|reflexivity].
+    destruct (mapM (pick_l a b step) _); reflexivity.
+  - change (pick_range a b step None) with (@Ok (option (list value)) None). cbn [bind].
+    destruct (mapM (pick_l a b step) _); reflexivity.
+Qed.
+
+Lemma take_0 {A} (l : list A) : take 0 l = [].
+Proof. reflexivity. Qed.
+Lemma drop_0 {A} (l : list A) : drop 0 l = l.
+Proof. reflexivity. Qed.
+
+Lemma regrouped_cons str o picked g gs :
+  regrouped str (o :: picked) (g :: gs) =
+  (match o with Some _ => mk_list str g | None => VNone end) :: regrouped str picked gs.
+Proof. reflexivity. Qed.
+
+Lemma regrouped_bmerge str ks : forall (pk : list (list value)) ws,
+  length pk = ntrue ks ->
+  let picked := bmerge None ks (map Some pk) in
+  concat (map unopt picked) = concat pk /\
+  regrouped str picked (regroup (map (fun o => zlen (unopt o)) picked) ws) =
+  bmerge VNone ks (regrouped str (map Some pk) (regroup (map zlen pk) ws)).
+Proof.
+  unfold ntrue. induction ks as [|[|] ks IH]; intros pk ws H; cbn [filter length] in H; cbv zeta.
+  - destruct pk; [|discriminate]. split; reflexivity.
+  - destruct pk as [|p pk]; [discriminate|]. cbn [length] in H. cbn [map bmerge unopt concat regroup].
+    destruct (IH pk (drop (zlen p) ws) ltac:(lia)) as [H1 H2]. cbv zeta in H1, H2. rewrite H1. split; [reflexivity|].
+    rewrite !regrouped_cons, H2. reflexivity.
+  - cbn [map bmerge unopt concat regroup app]. destruct (IH pk ws H) as [H1 H2]. cbv zeta in H1, H2. split; [exact H1|].
+    change (zlen (@nil value)) with 0. rewrite take_0, drop_0, regrouped_cons, H2. reflexivity.
+Qed.
+
+Lemma sg_present_IRange f str sz t ls a b s tail :
+  sg (S f) str sz t ls (IRange a b s :: tail) None =
+  do r <- sg (S f) str sz t (map Some (present ls)) (IRange a b s :: tail) None; Ok (fst r, reinsert ls (snd r)).
+Proof.
+  rewrite !sg_IRange. cbv zeta. destruct (stepof s =? 0); [reflexivity|].
+  rewrite pick_range_present, pick_range_somes.
+  destruct (mapM (pick_l a b (stepof s)) (present ls)) as [pk|e] eqn:Hpk; cbn [rmap bind]; [|reflexivity].
+  assert (Hlen : length pk = ntrue (keys_ls ls)).
+  { rewrite ntrue_keys_ls. apply (mapM_length _ _ _ Hpk). }
+  rewrite unopt_somes, counts_somes. cbn [adv_range].
+  destruct (regrouped_bmerge str (keys_ls ls) pk [] Hlen) as [Hc _]. cbv zeta in Hc. rewrite Hc.
+  destruct (se_ f t (concat pk) tail None) as [[t' ws]|e]; cbn [bind fst snd]; [|reflexivity].
+  destruct (regrouped_bmerge str (keys_ls ls) pk ws Hlen) as [_ Hr]. cbv zeta in Hr. rewrite Hr, reinsert_bmerge. reflexivity.
 Qed.
